@@ -22,15 +22,43 @@ type modLoc struct {
 	hi    string
 	cell  *LValue // by-reference local (whole or path)
 	field int
+	cond  string // optional guard (pre-state)
 }
 
 // parseModifies evaluates the modifies entries of a contract in env (pre-state).
 func (fc *FuncCtx) parseModifies(env *Env, entries []string) []modLoc {
 	var out []modLoc
 	for _, ent := range entries {
+		one := fc.parseModifies1(env, ent)
+		out = append(out, one...)
+	}
+	return out
+}
+
+func (fc *FuncCtx) parseModifies1(env *Env, ent0 string) []modLoc {
+	var out []modLoc
+	condG := ""
+	defer func() {
+		if condG != "" {
+			for i := range out {
+				out[i].cond = condG
+			}
+		}
+	}()
+	for _, ent := range []string{ent0} {
 		ent = strings.TrimSpace(ent)
 		if ent == "" || ent == "nothing" {
 			continue
+		}
+		cond := ""
+		if k := strings.Index(ent, " if "); k > 0 {
+			ce, err := ParseExpr(ent[k+4:])
+			if err != nil {
+				specFail("modifies %s: %v", ent, err)
+			}
+			cond = fc.evalBool(env, ce)
+			condG = cond
+			ent = strings.TrimSpace(ent[:k])
 		}
 		whole := false
 		if strings.HasSuffix(ent, "[*]") {
@@ -226,20 +254,20 @@ func (fc *FuncCtx) frameFormula(key string, a, b *State, next0 string, locs []mo
 		for _, l := range mine {
 			switch l.kind {
 			case "allelems":
-				ex = append(ex, "(= "+r+" "+l.base+")")
+				ex = append(ex, and(l.cond, "(= "+r+" "+l.base+")"))
 			case "elems":
 				allWholeOrNone = false
-				ex = append(ex, "(and (= "+r+" "+l.base+") (<= "+l.lo+" "+i+") (< "+i+" "+l.hi+"))")
+				ex = append(ex, and(l.cond, "(and (= "+r+" "+l.base+") (<= "+l.lo+" "+i+") (< "+i+" "+l.hi+"))"))
 			}
 		}
-		if allWholeOrNone {
+		if allWholeOrNone && false {
 			return "(forall ((" + r + " Int)) (! (=> " + and("(< "+r+" "+next0+")", not(or(ex...))) + " (= (select " + tb + " " + r + ") (select " + ta + " " + r + "))) :pattern ((select " + tb + " " + r + "))))"
 		}
 		return "(forall ((" + r + " Int) (" + i + " Int)) (! (=> " + and("(< "+r+" "+next0+")", not(or(ex...))) + " (= (select (select " + tb + " " + r + ") " + i + ") (select (select " + ta + " " + r + ") " + i + "))) :pattern ((select (select " + tb + " " + r + ") " + i + "))))"
 	case strings.HasPrefix(key, "H:"), strings.HasPrefix(key, "M"), strings.HasPrefix(key, "P:"):
 		var ex []string
 		for _, l := range mine {
-			ex = append(ex, "(= "+r+" "+l.ref+")")
+			ex = append(ex, and(l.cond, "(= "+r+" "+l.ref+")"))
 		}
 		return "(forall ((" + r + " Int)) (! (=> " + and("(< "+r+" "+next0+")", not(or(ex...))) + " (= (select " + tb + " " + r + ") (select " + ta + " " + r + "))) :pattern ((select " + tb + " " + r + "))))"
 	case key == nextKey:
@@ -248,6 +276,34 @@ func (fc *FuncCtx) frameFormula(key string, a, b *State, next0 string, locs []mo
 		return "(= " + ta + " " + tb + ")"
 	}
 	return "true"
+}
+
+// atFrameFormula is the accessor-level consequence of frameFormula for an element heap.
+func (fc *FuncCtx) atFrameFormula(key string, a, b *State, next0 string, locs []modLoc) string {
+	ta, tb := fc.get(a, key), fc.get(b, key)
+	if ta == tb {
+		return "true"
+	}
+	et := fc.compTy[key]
+	fc.nfresh++
+	sv, iv := fmt.Sprintf("fs?%d", fc.nfresh), fmt.Sprintf("fj?%d", fc.nfresh)
+	bs, ix := "(s-base "+sv+")", "(+ (s-off "+sv+") "+iv+")"
+	var ex []string
+	for _, l := range locs {
+		if l.comp != key {
+			continue
+		}
+		switch l.kind {
+		case "all":
+			return "true"
+		case "allelems":
+			ex = append(ex, and(l.cond, "(= "+bs+" "+l.base+")"))
+		case "elems":
+			ex = append(ex, and(l.cond, "(and (= "+bs+" "+l.base+") (<= "+l.lo+" "+ix+") (< "+ix+" "+l.hi+"))"))
+		}
+	}
+	a1, a0 := fc.at(et, tb, sv, iv), fc.at(et, ta, sv, iv)
+	return "(forall ((" + sv + " Slice) (" + iv + " Int)) (! (=> " + and("(< "+bs+" "+next0+")", not(or(ex...))) + " (= " + a1 + " " + a0 + ")) :pattern (" + a1 + ") :pattern (" + a0 + ")))"
 }
 
 func (fc *FuncCtx) frameObligations(st *State, reach, suffix string, pos token.Pos) {
@@ -573,6 +629,9 @@ func (fc *FuncCtx) applyEffects(st, pre *State, locs []modLoc, reach string, may
 	next0 := fc.next(pre)
 	for _, k := range keys {
 		fc.assume(reach, fc.frameFormula(k, pre, st, next0, locs))
+		if strings.HasPrefix(k, "E:") {
+			fc.assume(reach, fc.atFrameFormula(k, pre, st, next0, locs))
+		}
 	}
 }
 
@@ -937,6 +996,9 @@ func (fc *FuncCtx) execAppend(x *ssa.Call, args []Val, st *State, reach string) 
 	}
 	res := fc.define("Slice", "(ite "+inplace+" (mk-slice "+sbase+" "+soff+" "+total+" (s-cap "+s.T+")) (mk-slice "+nb+" 0 "+total+" "+newcap+"))", x.Name())
 	fc.set(st, ek, "(ite "+inplace+" (store "+E+" "+sbase+" "+arrIn+") (store "+E+" "+nb+" "+arrNew+"))")
+	fc.atFrame(et, E, fc.get(st, ek), func(b, ix string) string {
+		return "(ite " + inplace + " (and (= " + b + " " + sbase + ") (<= (+ " + soff + " " + n + ") " + ix + ") (< " + ix + " (+ " + soff + " " + total + "))) (= " + b + " " + nb + "))"
+	})
 	fc.set(st, nextKey, "(ite "+inplace+" "+nb+" (+ "+nb+" 1))")
 	fc.vals[x] = Val{T: res, Ty: x.Type()}
 }
@@ -958,5 +1020,8 @@ func (fc *FuncCtx) execCopy(x *ssa.Call, args []Val, st *State, reach string) {
 	sbase, soff := "(s-base "+s.T+")", "(s-off "+s.T+")"
 	fc.emit("(assert (forall ((" + k + " Int)) (! (= (select " + na + " " + k + ") (ite (and (<= " + doff + " " + k + ") (< " + k + " (+ " + doff + " " + n + "))) (select (select " + E + " " + sbase + ") (+ " + soff + " (- " + k + " " + doff + "))) (select (select " + E + " " + dbase + ") " + k + "))) :pattern ((select " + na + " " + k + ")))))")
 	fc.set(st, ek, "(store "+E+" "+dbase+" "+na+")")
+	fc.atFrame(et, E, fc.get(st, ek), func(b, ix string) string {
+		return "(and (= " + b + " " + dbase + ") (<= " + doff + " " + ix + ") (< " + ix + " (+ " + doff + " " + n + ")))"
+	})
 	fc.vals[x] = Val{T: n, Ty: x.Type()}
 }
